@@ -84,7 +84,8 @@ OBLIGATIONS = [
      "known": ["C04-single-backslash", "C04-single-cr-ff"]},
     {"id": "C04.S2", "module": __name__, "func": "h_multi",
      "what": "strings with newlines: printed literal is one (MULTILINE_)STRING_LITERAL token and reads back to s",
-     "cases": {"quick": str_cases(4, 1), "thorough": str_cases(5, 1)},
+     "cases": {"quick": [c for c in str_cases(4, 1) if c not in (8, 12)],
+               "thorough": [c for c in str_cases(5, 1) if c not in (8, 12)]},  # |s|=1 at indent 0 is all known-finding
      "timeout": {"quick": 200, "thorough": 1800},
      "bounds": {"quick": "|s|<=4, contains newline, indent 0..3, both quote preferences", "thorough": "|s|<=5"},
      "encodes": ["explorerscript.ssb_converting.ssb_data_types.repr_string",
@@ -155,7 +156,7 @@ def _read_lang_string(text: str) -> dict[str, str] | None:
 
 def h_lang(s1: str, s2: str, two: bool, indent: int) -> bool:
     """
-    pre: len(s1) <= C_LEN and len(s2) <= 2 and indent == C_INDENT and two == C_PQ
+    pre: len(s1) == C_LEN and len(s2) <= (1 if two else 0) and indent == C_INDENT and two == C_PQ
     pre: not multi_or_single_known(s1, indent + 1) and not multi_or_single_known(s2, indent + 1)
     post: _
     """
@@ -169,7 +170,7 @@ def h_lang(s1: str, s2: str, two: bool, indent: int) -> bool:
     LAST_DETAIL = {"printed": t}
     r = _read_lang_string(t)
     LAST_DETAIL["read"] = r
-    return verdict(r is not None and r == d)
+    return verdict(r is not None and list(r.keys()) == list(d.keys()) and all(d[k] == r[k] for k in d))
 
 
 def multi_or_single_known(s: str, indent: int) -> bool:
@@ -278,6 +279,7 @@ def h_spec_multi(body: str, dq: bool) -> bool:
     pre: len(body) == C_LEN
     pre: all(c in ALPH for c in body)
     pre: "'''" not in body
+    pre: admit("C04.S4a", body, dq)
     post: _
     """
     global LAST_DETAIL
@@ -352,7 +354,7 @@ def h_fixed(w: str, f: str) -> bool:
 
 def h_fixed_ctor(whole: int, negzero: bool, f: str) -> bool:
     """
-    pre: -12 <= whole <= 12 and 1 <= len(f) <= 2 and _digits(f)
+    pre: -3 <= whole <= 11 and len(f) == 1 and _digits(f)
     post: _
     """
     # what a binary reader constructs: SsbOpParamFixedPoint(whole | NegativeZero, fraction digits)
@@ -430,16 +432,24 @@ class _ArgCtx:
 C_XO, C_YO = [0, 2, 4][_cc % 3], [0, 2, 4][(_cc // 3) % 3]
 
 
-def h_posmark(name: str, xr: int, yr: int) -> bool:
+C_NAMEFIX = (_cc // 9) % 2 == 1  # 1: name fixed, coordinates symbolic; 0: name symbolic, coordinates fixed
+
+
+def posmark_cases(offs: list[int]) -> list[int]:
+    return [a + 3 * b + 9 * f for a in offs for b in offs for f in (0, 1)]
+
+
+def h_posmark(name: str, xr: int, yr: int, xo: int, yo: int) -> bool:
     """
-    pre: len(name) <= 2 and -4 <= xr <= 4 and -4 <= yr <= 4
-    pre: admit("C04.S6", name, xr, yr, C_XO, C_YO)
+    pre: len(name) <= 2 and -4 <= xr <= 4 and -4 <= yr <= 4 and xo == C_XO and yo == C_YO
+    pre: (C_NAMEFIX and name == "m") or (not C_NAMEFIX and xr == -3 and yr == 4)
+    pre: admit("C04.S6a", name, xr, yr, xo, yo)
     post: _
     """
     from explorerscript.common_syntax import parse_position_marker_arg
 
     global LAST_DETAIL
-    m = SsbOpParamPositionMarker(name, C_XO, C_YO, xr, yr)
+    m = SsbOpParamPositionMarker(name, xo, yo, xr, yr)
     t = str(m)
     LAST_DETAIL = {"printed": t}
     # grammar: POSITION '<' STRING_LITERAL ',' arg ',' arg '>'
@@ -459,7 +469,7 @@ def h_posmark(name: str, xr: int, yr: int) -> bool:
     y = parse_position_marker_arg(_ArgCtx(ay))  # type: ignore
     m2 = SsbOpParamPositionMarker(singleline_string_literal(lit), x[1], y[1], x[0], y[0])
     LAST_DETAIL["read"] = repr(m2)
-    return verdict(m2 == m and m2.name == name)
+    return verdict(m == m2 and name == m2.name)
 
 
 C_PW, C_PF, C_PDOT, C_PNEG = _cc % 3, (_cc // 3) % 3, (_cc // 9) % 2 == 1, (_cc // 18) % 2 == 1
@@ -514,10 +524,11 @@ OBLIGATIONS += [
     {"id": "C04.S3", "module": __name__, "func": "h_lang",
      "what": "language strings: str(SsbOpParamLanguageString) at indent i, read by a grammar-following reader, gives "
              "the same {language: string} dict (1-2 languages)",
-     "cases": {"quick": str_cases(3, 3), "thorough": str_cases(4, 4)},
-     "timeout": {"quick": 240, "thorough": 1800},
-     "bounds": {"quick": "first string |s|<=3, second |s|<=2, indent 0..3; strings in the S1/S2 known-finding classes excluded",
-                "thorough": "first string |s|<=4"},
+     "cases": {"quick": [c for c in str_cases(2, 0) if not ((c // 4) % 2 == 1 and c // 8 > 1)],
+               "thorough": str_cases(3, 0)},
+     "timeout": {"quick": 240, "thorough": 2400},
+     "bounds": {"quick": "one language with |s|<=2, or two languages with |s1|<=1 and |s2|<=1, indent 0..3; strings in the S1/S2 known-finding classes excluded",
+                "thorough": "first string |s|<=3"},
      "encodes": ["explorerscript.ssb_converting.ssb_data_types.SsbOpParamLanguageString.__str__"] + _ENC_STR},
     {"id": "C04.S3b", "module": __name__, "func": "h_ctx_simple",
      "what": "operation-argument context: SimpleSimpleOpWriteHandler prints a constant string at the decompiler's "
@@ -535,7 +546,8 @@ OBLIGATIONS += [
      "cases": {"quick": [8 * n for n in range(0, 5)], "thorough": [8 * n for n in range(0, 7)]},
      "timeout": {"quick": 240, "thorough": 2400},
      "bounds": {"quick": "literal bodies of length <=4 over {space,a,LF,backslash,quote}", "thorough": "length <=6"},
-     "encodes": ["explorerscript.ssb_converting.compiler.utils.multiline_string_literal"]},
+     "encodes": ["explorerscript.ssb_converting.compiler.utils.multiline_string_literal"],
+     "known": ["C04-reader-blank-line-before-closing-delimiter"]},
     {"id": "C04.S4b", "module": __name__, "func": "h_spec_single",
      "what": "spec direction: single-line literal bodies un-escape \\\\\" \\\\' \\\\n as documented; quote styles equal",
      "timeout": {"quick": 240, "thorough": 1200},
@@ -544,17 +556,19 @@ OBLIGATIONS += [
     {"id": "C04.S5a", "module": __name__, "func": "h_fixed",
      "what": "decimal literal [-]W.F -> from_str: same sign (incl. negative zero), same whole part without redundant "
              "zeros, same fraction digits; from_str(str(p)) == p",
-     "cases": {"quick": fixed_cases(2, 2), "thorough": fixed_cases(3, 3)},
-     "timeout": {"quick": 240, "thorough": 2400},
-     "bounds": {"quick": "W 0-2 digits, F 1-2 digits (digit values enumerated by the solver where the code realises them)",
-                "thorough": "W 0-3 digits, F 1-3 digits"},
+     "cases": {"quick": fixed_cases(1, 1) + [c for c in fixed_cases(0, 2) if c not in fixed_cases(1, 1)],
+               "thorough": fixed_cases(2, 2)},
+     "timeout": {"quick": 240, "thorough": 3000},
+     "bounds": {"quick": "W 0-1 digits with F 1 digit, and W empty with F 2 digits (digit values are enumerated by the "
+                         "solver: the constructor's set(fract_part) realises them)",
+                "thorough": "W 0-2 digits, F 1-2 digits"},
      "encodes": ["explorerscript.ssb_converting.ssb_data_types.SsbOpParamFixedPoint.from_str",
                  "explorerscript.ssb_converting.ssb_data_types.SsbOpParamFixedPoint.__init__"]},
     {"id": "C04.S5b", "module": __name__, "func": "h_fixed_ctor",
      "what": "fixed-point value as a binary reader constructs it (whole int or NegativeZero, fraction digits): "
              "from_str(str(p)) == p",
      "timeout": {"quick": 240, "thorough": 1200},
-     "bounds": "whole in [-12,12], 1-2 fraction digits",
+     "bounds": "whole in [-3,11] or NegativeZero, 1 fraction digit",
      "encodes": ["explorerscript.ssb_converting.ssb_data_types.SsbOpParamFixedPoint.from_str",
                  "explorerscript.ssb_converting.ssb_data_types.SsbOpParamFixedPoint.__init__"]},
     {"id": "C04.S5c", "module": __name__, "func": "h_int",
@@ -568,9 +582,10 @@ OBLIGATIONS += [
     {"id": "C04.S6a", "module": __name__, "func": "h_posmark",
      "what": "position mark printed by __str__ and read back through the grammar shape + the real "
              "parse_position_marker_arg gives an equal mark (fields and name)",
-     "cases": list(range(9)),
+     "cases": posmark_cases([0, 1]),
      "timeout": {"quick": 240, "thorough": 1200},
-     "bounds": "offsets in {0,2,4}^2 (case split), tile coordinates in [-4,4], |name|<=2",
+     "bounds": "offsets in {0,2}^2 (case split; 4 is a known finding); either |name|<=2 symbolic with fixed tile "
+               "coordinates, or name fixed with tile coordinates in [-4,4]^2",
      "encodes": ["explorerscript.ssb_converting.ssb_data_types.SsbOpParamPositionMarker.__str__",
                  "explorerscript.ssb_converting.ssb_data_types.SsbOpParamPositionMarker.x_final",
                  "explorerscript.common_syntax.parse_position_marker_arg"],
@@ -579,8 +594,9 @@ OBLIGATIONS += [
     {"id": "C04.S6b", "module": __name__, "func": "h_posarg",
      "what": "position-mark argument spellings: integers, d.5, d.50, d.0, .5 give (tile, half offset); every other "
              "fraction is rejected with SsbCompilerError",
-     "cases": posarg_cases(),
-     "timeout": {"quick": 240, "thorough": 1200},
-     "bounds": "0-2 whole digits, 0-2 fraction digits, optional '-'",
+     "cases": {"quick": [c for c in posarg_cases() if not (c % 3 == 2 and (c // 3) % 3 == 2)], "thorough": posarg_cases()},
+     "timeout": {"quick": 240, "thorough": 2400},
+     "bounds": {"quick": "0-2 whole digits, 0-2 fraction digits (not 2+2), optional '-'",
+                "thorough": "0-2 whole digits, 0-2 fraction digits, optional '-'"},
      "encodes": ["explorerscript.common_syntax.parse_position_marker_arg"]},
 ]
